@@ -867,6 +867,9 @@ void QXmppPubSubNodeConfig::serializeForm(QXmppDataForm &form) const
                       Type::TextSingleField,
                       PAYLOAD_TYPE,
                       d->payloadType);
+
+    // additional (unknown) fields
+    QXmppExtensibleDataFormBase::serializeForm(form);
 }
 
 QString QXmppPubSubPublishOptions::formType() const
